@@ -507,6 +507,33 @@ def correspond(ctx, kind, cont, cstats, leak_expected=None):
                     ctx.disagree("export_strip: uuid reaches a cell", dict(kind=kind, container=cont), model_leak, impl_leak)
 
 
+def correspond_leaves(ctx, cstats):
+    """The two leaf functions every row id is made of: common.mangle_string against the model's
+    [mangle_string] (truncation at 15, replaced / removed characters) and str(n) against [dec_of_N]."""
+    from rpft.rapidpro.models.common import mangle_string
+
+    rng = ctx.rng
+    alphabet = "abcXYZ019 ._-|;:,!?/\\\"'()[]{}<>@#\t\né日\u00a0"
+    strs = ["", " ", ".", "a" * 15, "a" * 16, "a b.c-d_e", "this is a long message text over fifteen", "....................", "é" * 20 + "abc"]
+    strs += G.WORDS + G.CLASH_WORDS + G.NAMES
+    for _ in range(250 * ctx.scale):
+        strs.append("".join(rng.choice(alphabet) for _ in range(rng.choice([1, 5, 14, 15, 16, 17, 30]))))
+    outs = ctx.model.ask_many([f"(117 3 {enc_str(x)})" for x in strs])
+    for x, o in zip(strs, outs):
+        ctx.v.coverage["evaluations"] += 1
+        got, want = dec_str(parse_sexp(o)), mangle_string(x)
+        if got != want:
+            ctx.disagree("mangle_string", x, got, want)
+    nums = sorted(set([0, 1, 9, 10, 11, 19, 20, 99, 100, 101, 999, 1000, 4095, 65535] + [rng.randrange(0, 20000) for _ in range(60)]))
+    outs = ctx.model.ask_many([f"(117 4 {n})" for n in nums])
+    for n, o in zip(nums, outs):
+        ctx.v.coverage["evaluations"] += 1
+        if dec_str(parse_sexp(o)) != str(n):
+            ctx.disagree("dec_of_N", n, dec_str(parse_sexp(o)), str(n))
+    cstats["mangle_compared"] = cstats.get("mangle_compared", 0) + len(strs)
+    cstats["decimal_compared"] = cstats.get("decimal_compared", 0) + len(nums)
+
+
 # ------------------------------------------------------------------ run
 def run(ctx):
     logging.getLogger("rpft.rapidpro.models.routers").setLevel(logging.ERROR)
@@ -521,6 +548,9 @@ def run(ctx):
                                                    "with_dead_end": 0, "with_multi_action": 0, "nodes": 0, "goto_rows": 0})
     nontrivial = set()
     cstats = ctx.stats.setdefault("correspondence", {})
+
+    if ctx.model:
+        correspond_leaves(ctx, cstats)
 
     conts = []
     fixture = json.load(open(os.path.join(REPO, FIXTURE)))
